@@ -15,6 +15,7 @@
   Import-free and executable.
 -/
 import YashModel.Input.Model
+import YashModel.Input.ChunkModel
 namespace YashModel.Input
 
 /-- the first `k` lines of an input (concatenated) and what follows them -/
@@ -28,6 +29,15 @@ def isSuffix (a b : List Byte) : Bool := a.length ≤ b.length && b.drop (b.leng
 /-- offset `o` of `script` is the start of a line or the end of the script -/
 def lineStart (script : List Byte) (o : Nat) : Bool :=
   o == 0 || o == script.length || (o ≤ script.length && script[o - 1]? == some NL)
+
+/-- the input is valid UTF-8 (`read` stops in the middle of a line when it meets an invalid byte) -/
+def validUtf8 (buf : List Byte) : List Byte → Bool
+  | [] => buf.isEmpty
+  | b :: rest =>
+    match utf8Check (buf ++ [b]) with
+    | .ok _ => validUtf8 [] rest
+    | .more => validUtf8 (buf ++ [b]) rest
+    | .bad => false
 
 def wholeLines (text rest : List Byte) : Bool := text.isEmpty || endsNL text || rest.isEmpty
 
@@ -66,7 +76,7 @@ def check (shared : Bool) (script data : List Byte) (prefixes : List (List Byte)
   match checkLog script r.2.2 with
   | some w => "FAIL:" ++ w
   | none =>
-    if shared && !(probeOffsets r.1.out).all (lineStart script) then "FAIL:offset-inside-line"
+    if shared && validUtf8 [] script && !(probeOffsets r.1.out).all (lineStart script) then "FAIL:offset-inside-line"
     else if !checkPrefixes shared data (traceOf r) prefixes then "FAIL:prefix-not-monotone"
     else match chunks with
       | some cs =>
@@ -76,7 +86,15 @@ def check (shared : Bool) (script data : List Byte) (prefixes : List (List Byte)
         else
           let rc := readLineCGo true false [] cs []
           let rf := readLine true script []
-          if (rc.1, rc.2.1, rc.2.2.flatten) != rf then "FAIL:chunking-changes-read" else "ok"
+          if (rc.1, rc.2.1, rc.2.2.flatten) != rf then "FAIL:chunking-changes-read"
+          else if shared then
+            -- the machine that only ever reads the chunk list, against the flat run
+            let c := runC cs
+            if c.1.st.out != r.1.out || c.1.st.status != r.1.status || c.1.st.echo != r.1.echo
+               || c.1.st.pos != r.1.pos || c.1.st.vars != r.1.vars || c.1.st.aliases != r.1.aliases
+               || c.2.1 != r.2.1 || c.2.2 != r.2.2.map (·.text) || c.1.src.flatten != r.1.inp
+            then "FAIL:chunked-run-differs" else "ok"
+          else "ok"
       | none => "ok"
 
 end YashModel.Input
